@@ -424,6 +424,10 @@ k2("K165", "C18", [("segment/decode.go", "\t\"io\"\n", "\t\"io\"\n\t\"sync\"\n")
    ("segment/decode.go", "\tencodedPayload := make([]byte, length)\n", "\tscratch := compressedPayloadPool.Get().([]byte)\n\tdefer compressedPayloadPool.Put(scratch)\n\tencodedPayload := scratch[:length]\n")],
   "pool-hygiene:(*segment.codec).decodeSegmentPayload Get#1 escape", "pooled payload buffer aliased by the returned segment")
 
+k2("K166", "C10", [("client/inflight.go", "\tif inFlight, err = h.addInFlight(streamId, managedStreamId); err == nil {", "\tif inFlight, err = h.addInFlight(streamId, managedStreamId, h.maxPendingFor(f)); err == nil {"),
+   ("client/inflight.go", "func (h *inFlightRequestsHandler) addInFlight(streamId int16, managedStreamId bool) (*inFlightRequest, error) {\n\tinFlight := newInFlightRequest(h.String(), streamId, managedStreamId, h.ctx, h.maxPending, h.timeout)", "func (h *inFlightRequestsHandler) maxPendingFor(f *frame.Frame) int {\n\tif f.Body != nil {\n\t\tif query, ok := f.Body.Message.(*message.Query); ok && query.Options != nil && query.Options.ContinuousPagingOptions != nil {\n\t\t\treturn h.maxPending\n\t\t}\n\t}\n\treturn 1\n}\n\nfunc (h *inFlightRequestsHandler) addInFlight(streamId int16, managedStreamId bool, maxPending int) (*inFlightRequest, error) {\n\tinFlight := newInFlightRequest(h.String(), streamId, managedStreamId, h.ctx, maxPending, h.timeout)")],
+  "pending-capacity:inFlightRequest.incoming", "buffer sized per request kind; EXECUTE with continuous paging forgotten")
+
 
 json.dump(C, open(os.path.join(os.path.dirname(os.path.abspath(__file__)), "controls.json"), "w"), indent=1)
 print(len(C), "controls")
